@@ -54,14 +54,17 @@ CLAIMS = {
 CLAIMS['C06'] = dict(
    text='Coq theorems over a small-step model of thpool.c at the granularity of pthread operations, for EVERY schedule (arbitrary list of thread '
         'choices incl. spurious wake-ups), every flavour (eager/lazy, joinable/detached, wait-all or not) and any number of submitters, workers '
-        'and tasks: tasks are conserved by every transition, hence every task runs at most once, only submitted tasks run, discarded tasks never '
-        'ran. Tie: the real thpool.c runs under a deterministic scheduler (link-time wraps of its pthread calls, virtualised mutex/condition); for '
+        'and tasks: (1) tasks are conserved by every transition, hence every task runs at most once, only submitted tasks run, discarded tasks never '
+        'ran; (2) QUIESCENCE: an inductive safety invariant (lock ownership, alive counter = workers that have not announced their exit, submitters '
+        'finished once free started, joined workers finished, every worker finished once the freeing thread passed its join / alive==0 wait) shows that '
+        'after the pool is destroyed every worker has returned and no pool thread ever touches the pool again; (3) the pool lock is mutually exclusive. '
+        'Tie: the real thpool.c runs under a deterministic scheduler (link-time wraps of its pthread calls, virtualised mutex/condition); for '
         'the same schedule the per-step pending-operation codes and the execution log must equal the extracted model (random schedules + every '
         'schedule prefix of length 5 over a 1x1x2 pool); ASan reports a worker touching a freed pool.',
-   note=NOTE_COMMON + 'NOT proved (decided per run by the scheduler harness and its monitors only): wait-all / wait-current completeness, quiescence after free, '
+   note=NOTE_COMMON + 'NOT proved (decided per run by the scheduler harness and its monitors only): wait-all / wait-current completeness (liveness under fairness), '
         'deadlock freedom, bounded parallelism. Below the model: accesses outside the lock (entry asserts, atomic running counter), weak memory; m_thpool_length/clear not modelled; '
         'free is assumed to happen after every submitter call returned.',
-   technique='Coq proof (conservation invariant by induction over arbitrary schedules) tied by deterministic-scheduler differential testing',
+   technique='Coq proof (conservation invariant + inductive safety invariant over arbitrary schedules) tied by deterministic-scheduler differential testing',
    design='7/C06')
 CORE_TEXT = {
  'C01': 'guards of every state-changing call refuse without effect (any wrong state, zombies, no context); plus per-run monitors: no handler for a non-RUNNING module, reported running count = RUNNING modules',
